@@ -141,6 +141,10 @@ func (v MV) matches(g interface{}) bool {
 		return ok && math.Abs(f-float64(v.N)/1000) < 1e-9
 	case "str":
 		s, ok := g.(string)
+		if ok && curVariant == 1 && wrapperNames[cps(v.S)] {
+			// the name tag of a wrapper function of implementation variant 1 must carry the marker
+			return s == cps(v.S)+variantMark
+		}
 		return ok && s == cps(v.S)
 	case "arr":
 		a, ok := g.([]interface{})
